@@ -6,4 +6,4 @@ require github.com/asticode/go-astits v0.0.0
 
 require github.com/asticode/go-astikit v0.30.0 // indirect
 
-replace github.com/asticode/go-astits => /tmp/tw2-repo
+replace github.com/asticode/go-astits => /repo
